@@ -106,7 +106,7 @@ func InlineNewHelpers(dir, baselineFile string, env []string) (map[string][]byte
 		msgs []string
 	}
 	inlinedInto := map[string]bool{} // new helpers at least one call of which was inlined (only those are pruned when unreferenced)
-	serialFile := map[string]bool{} // files where a multi-edit round failed: one edit per round from then on
+	serialFile := map[string]bool{}  // files where a multi-edit round failed: one edit per round from then on
 	var lastEdits []edit
 	focus := map[string]bool{} // import paths of the packages with new helpers
 	var renamePrev map[string][]byte
